@@ -1510,3 +1510,80 @@ def ck15(model):
         r.undec(f.node, 'lookup of the accepted patterns not recognised')
         r.instances += 1
     return r
+
+
+# ----------------------------------------------------------------------------- LN3
+def ln3(model):
+    from ..callgraph import callgraph
+    r = RuleResult('LN3', 'add_line_numbers(text, numbers) needs one number per "<br>" + line-break row of its text; '
+                   'the one place where that is arranged is the page body of generate_html, whose rows and '
+                   'numbers are built side by side from the source lines.  Who may call: only that call, with the '
+                   'list that grows together with the text (strings of matches contain further row breaks: '
+                   'a second caller that joins them runs out of numbers)', floor=1)
+    f = model.func('shell.genhtml.add_line_numbers')
+    sites = callgraph(model).callers.get(f.qname, [])
+    if not sites:
+        raise AnalysisError('anchor vanished: call of add_line_numbers')
+    for c in sites:
+        fn = getattr(c, '_fn', None)
+        ok = fn is not None and fn.mod.short == 'shell.genhtml' and len(c.args) == 2 and isinstance(c.args[1], ast.Name)
+        if ok:
+            # the number list is extended in the function that builds the rows (range(...) per region) or is a
+            # parameter handed through by such a caller
+            nm = c.args[1].id
+            built = any(isinstance(n, (ast.AugAssign, ast.Assign)) and any(
+                isinstance(t, ast.Name) and t.id == nm for t in ([n.target] if isinstance(n, ast.AugAssign) else n.targets))
+                and any(isinstance(x, ast.Call) and getattr(x.func, 'id', '') == 'range' for x in ast.walk(n.value))
+                for n in iter_scope(fn.node))
+            ok = built or nm in fn.params
+        if ok:
+            r.ok(c, 'called with the number list built from the line ranges of the regions', nontrivial=True)
+        else:
+            r.fail(c, '%s calls add_line_numbers with numbers (%s) that are not the line ranges built with the '
+                   'rows of the page: a text with more rows than numbers ends in IndexError'
+                   % (fn.qname if fn else '?', unparse(c.args[1])[:50] if len(c.args) > 1 else '?'),
+                   witness='two overlapping messages, one of them spanning a line break, --output html')
+    return r
+
+
+# ----------------------------------------------------------------------------- SB7
+def sb7(model):
+    from .. import tok as T
+    r = RuleResult('SB7', '\\newcommand{\\x }[ 1 ]{..}: TeX ignores the blank behind a control word and around a number; '
+                   'h_newcommand therefore strips the text it reads for the macro name and for the parameter count '
+                   'before it uses them (else the macro is registered under "\\x " and \\x stays unknown, or the '
+                   'count is taken for 0)', floor=2)
+    f = model.func('handlers.h_newcommand')
+    for var, what in (('name', 'macro name'), ('nargs', 'parameter count')):
+        asg = [n for n in iter_scope(f.node) if isinstance(n, ast.Assign) and len(n.targets) == 1
+               and isinstance(n.targets[0], ast.Name) and any(
+                   isinstance(c, ast.Call) and T.call_name(c) in ('get_text_direct', 'get_text_expanded')
+                   for c in ast.walk(n.value))]
+        # the assignment that reads args[1] (name) resp. args[2] (count)
+        idx = 1 if var == 'name' else 2
+        mine = [n for n in asg if any(isinstance(s_, ast.Subscript) and T.is_const(s_.slice, idx)
+                                      and isinstance(s_.value, ast.Name) and s_.value.id in f.params
+                                      for s_ in ast.walk(n.value))]
+        if not mine:
+            r.undec(f.node, 'reading of the %s in h_newcommand not recognised' % what)
+            r.instances += 1
+            continue
+        n = mine[0]
+        v = n.value
+        stripped = isinstance(v, ast.Call) and isinstance(v.func, ast.Attribute) and v.func.attr == 'strip' and not v.args
+        if not stripped:
+            # stripped in a following statement: x = x.strip()
+            nm = n.targets[0].id
+            stripped = any(isinstance(m, ast.Assign) and isinstance(m.targets[0], ast.Name) and m.targets[0].id == nm
+                           and isinstance(m.value, ast.Call) and isinstance(m.value.func, ast.Attribute)
+                           and m.value.func.attr == 'strip' and unparse(m.value.func.value) == nm
+                           for m in iter_scope(f.node))
+        if stripped:
+            r.ok(n, 'the %s is stripped' % what, nontrivial=True)
+        else:
+            r.fail(n, 'the %s is used as read (%s), with the blanks TeX ignores: %s' % (
+                what, unparse(v)[:50],
+                '\\newcommand{\\foo }{x} registers "\\foo " and every later \\foo is listed as unknown'
+                if var == 'name' else '\\newcommand{\\x}[ 1 ]{a#1} is taken for a macro without parameters'),
+                witness='\\newcommand{\\foo }{x} \\foo' if var == 'name' else '\\newcommand{\\x}[ 1 ]{a#1}\\x{b}')
+    return r
